@@ -68,7 +68,7 @@ def main():
         "hooks": {
             "guard": "cargo feature `verif` on klukai-types and klukai-agent (default features do not include it)",
             "enable": "the simulator crate depends on /repo/crates/klukai-{types,agent} by path with features = [\"verif\"]; every check runs `cargo build --offline` in /verif/sim first, which rebuilds the klukai crates from /repo's working tree",
-            "baseline_off_cmd": "cd /repo && cargo nextest run --workspace --no-fail-fast --test-threads 8 --offline || cargo test --workspace --no-fail-fast --offline",
+            "baseline_off_cmd": "cd /repo && cargo nextest run --workspace --no-fail-fast --tool-config-file pb:/w/lib/nextest.toml --profile pb --test-threads 8 --offline",
             "source_commits": hooks,
             "add_only": True,
         },
